@@ -557,6 +557,24 @@ func run(r *Rng, tier string, n int) {
 				}
 			}
 		}
+		// string lists that are nil, empty, or hold empty strings, in every TXT-like type
+		for _, txt := range [][]string{nil, {}, {""}, {"", ""}, {"", "x", ""}} {
+			for _, rr := range []dns.RR{
+				&dns.TXT{Hdr: h(dns.TypeTXT), Txt: txt}, &dns.SPF{Hdr: h(dns.TypeSPF), Txt: txt}, &dns.AVC{Hdr: h(dns.TypeAVC), Txt: txt},
+				&dns.NINFO{Hdr: h(dns.TypeNINFO), ZSData: txt}, &dns.RESINFO{Hdr: h(dns.TypeRESINFO), Txt: txt},
+			} {
+				for _, compress := range []bool{true, false} {
+					m := new(dns.Msg)
+					m.Compress = compress
+					m.SetQuestion("example.org.", rr.Header().Rrtype)
+					for k := 0; k < 5; k++ {
+						m.Answer = append(m.Answer, dns.Copy(rr))
+					}
+					checkLen(m, false, false, "empty-string-lists")
+					st["empty_string_list_messages"]++
+				}
+			}
+		}
 		for _, n := range []int{255, 256, 257, 300, 510, 511, 600, 1000} {
 			long := strings.Repeat("s", n)
 			for _, rr := range []dns.RR{
